@@ -516,6 +516,7 @@ func Run(c *core.Ctx) {
 	h.streamLayout()
 	h.streamRand()
 	h.streamReeval()
+	h.streamLitReuse()
 }
 
 func (h *harness) begin(stream string, idx int, text string) { h.c.Begin(0, stream, idx, text) }
